@@ -38,7 +38,7 @@ def bounds(tier):
 
 def required_guards(tier):
     return ['module', 'operator', 'reflected_operator', 'inplace', 'none_operand', 'iterable_operand', 'multi_leaf_operand', 'ghost_operand',
-            'unchanged_checked']
+            'unchanged_checked', 'deep_thinned_operand']
 
 
 def jobs(tier):
@@ -51,6 +51,11 @@ def jobs(tier):
                            'group': impl,
                            'args': dict(fam=fam, impl=impl, n=n if variant == 'centred' else 3,
                                         variant=variant)})
+    # wave 7 (seed C10M): operands that are trees of 3+ levels thinned by every contiguous run of deletions
+    for fam in (('II', 'OO', 'LF') if tier == 'quick' else F.FAMILIES):
+        for impl in F.IMPLS:
+            js.append({'fn': 'deep_thin_job', 'weight': 6 if impl == 'py' else 2, 'group': impl,
+                       'args': dict(fam=fam, impl=impl, n=12 if tier == 'quick' else 16)})
     return js
 
 
@@ -415,8 +420,97 @@ def job(fam, impl, n, variant):
                 guards=dict(guards), violations=rep.all(), sample=sample)
 
 
+def deep_thin_job(fam, impl, n, only=None):
+    """Tree operands with a deletion history: a BTree / TreeSet grown by single inserts to n keys at node
+    sizes 2/2 (3+ levels), then every contiguous run keys[i:j] deleted (ascending and descending order);
+    the module functions with the thinned tree on either side of three Set/Bucket operands, against
+    plain set algebra.  The leaf chain of a thinned tree has seams where leaves and whole subtrees were
+    unlinked; a set operation walks that chain."""
+    mod = F.module(fam)
+    sfx = 'Py' if impl == 'py' else ''
+    keys, grid = F.universe(fam, n, 'centred')
+    keys = list(keys)
+    vals = F.values(fam)
+    F.set_sizes(fam, 2, 2)
+    rep = Reporter('C10')
+    guards = collections.Counter()
+    evaluations = 0
+    outcomes = set()
+    fns = [(name, getattr(mod, name + sfx)) for name in ('union', 'intersection', 'difference')]
+    alg = {'union': lambda a, b: a | b, 'intersection': lambda a, b: a & b, 'difference': lambda a, b: a - b}
+    others = [tuple(keys), (), tuple(keys[::3]), tuple(keys[1::2])]
+    for kind in ('BTree', 'TreeSet'):
+        cls = F.cls(fam, kind, impl)
+        ismap = kind in F.MAP_KINDS
+        for i in range(len(keys)):
+            for j in range(i + 1, len(keys) + 1):
+                for order in ('asc', 'desc'):
+                    if only is not None and (kind, i, j, order) != only:
+                        continue
+                    def build():
+                        t = cls()
+                        for k in keys:
+                            if ismap:
+                                t[k] = vals[0]
+                            else:
+                                t.add(k)
+                        run_ = keys[i:j] if order == 'asc' else keys[i:j][::-1]
+                        for k in run_:
+                            if ismap:
+                                del t[k]
+                            else:
+                                t.remove(k)
+                        return t
+                    A = [k for k in keys if k not in keys[i:j]]
+                    for B in others:
+                        for okind in ('Set', 'Bucket'):
+                            for name, fn in fns:
+                                for side in ('left', 'right'):
+                                    if okind == 'Bucket' and side == 'right' and name == 'difference' and not ismap:
+                                        pass
+                                    t = build()
+                                    ocls = F.cls(fam, okind, impl)
+                                    o = ocls({k: vals[0] for k in B}) if okind == 'Bucket' else ocls(B)
+                                    case = dict(part='deep', fam=fam, impl=impl, n=n, kind=kind, i=i, j=j, order=order,
+                                                B=list(B), okind=okind, op=name, side=side)
+                                    a, b = (t, o) if side == 'left' else (o, t)
+                                    sa, sb = (A, B) if side == 'left' else (B, A)
+                                    r = run(lambda: fn(a, b))
+                                    evaluations += 1
+                                    guards['module'] += 1
+                                    guards['deep_thinned_operand'] += 1
+                                    math = sorted(alg[name](set(sa), set(sb)), key=F.skey)
+                                    if r[0] != 'ok':
+                                        rep.add(dict(site=name, cls='deep-exception', impl=impl, fa=kind, fb=okind), case,
+                                                '%s raised %s for a %s thinned by keys[%d:%d] (%s)' % (name, r[1], kind, i, j, order))
+                                        continue
+                                    got = list(r[1]) if r[1] is not None else []
+                                    outcomes.add((name, tuple(map(repr, got))))
+                                    if got != math:
+                                        rep.add(dict(site=name, cls='deep-keys', impl=impl, fa=kind, fb=okind), case,
+                                                '%s(%s) with a %s thinned by keys[%d:%d] (%s, contents %r) and %s %r -> %r, expected %r'
+                                                % (name, side, kind, i, j, order, A, okind, list(B), got, math))
+                                    if list(t.keys()) != A:
+                                        rep.add(dict(site=name, cls='deep-operand-modified', impl=impl, fa=kind, fb=okind), case,
+                                                'tree operand reads %r afterwards, expected %r' % (list(t.keys()), A))
+                    if rep.full:
+                        break
+                if rep.full:
+                    break
+            if rep.full:
+                break
+    return dict(evaluations=evaluations, distinct=len(outcomes), exhaustive=not rep.full,
+                guards=dict(guards), violations=rep.all(), sample=None)
+
+
 def replay(case):
     """Re-run the recorded (A, B, forms) cell; report whatever it reports."""
+    if case.get('part') == 'deep':
+        r = deep_thin_job(case['fam'], case['impl'], case['n'],
+                          only=(case['kind'], case['i'], case['j'], case['order']))
+        vs = [v for v in r['violations'] if all(v['case'].get(k) == case.get(k)
+                                                for k in ('B', 'okind', 'op', 'side'))]
+        return dict(violations=vs)
     r = job(case['fam'], case['impl'], case['n'], case['variant'])
     vs = [v for v in r['violations'] if all(v['case'].get(k) == case.get(k)
                                             for k in ('A', 'B', 'fa', 'fb'))]
